@@ -1,4 +1,5 @@
 mod cluster;
+mod journal;
 mod panics;
 mod profiles;
 mod walk;
@@ -11,6 +12,7 @@ fn main() {
     }
     let code = match args[1].as_str() {
         "cluster" => walk::main(&args[2..]),
+        "journal" => journal::main(&args[2..]),
         _ => {
             eprintln!("unknown command {}", args[1]);
             2
